@@ -18,6 +18,8 @@ VSub(u, v)  == TLCEval([i \in DOMAIN u |-> u[i] - v[i]])
 VScale(k, v) == TLCEval([i \in DOMAIN v |-> k * v[i]])
 VNeg(v)     == TLCEval([i \in DOMAIN v |-> -v[i]])
 
+RECURSIVE DotFrom(_, _, _)
+DotFrom(u, v, i) == IF i > Len(u) THEN 0 ELSE u[i] * v[i] + DotFrom(u, v, i + 1)
 Dot(u, v) ==
   CASE Len(u) = 1 -> u[1]*v[1]
     [] Len(u) = 2 -> u[1]*v[1] + u[2]*v[2]
@@ -25,6 +27,7 @@ Dot(u, v) ==
     [] Len(u) = 4 -> u[1]*v[1] + u[2]*v[2] + u[3]*v[3] + u[4]*v[4]
     [] Len(u) = 5 -> u[1]*v[1] + u[2]*v[2] + u[3]*v[3] + u[4]*v[4] + u[5]*v[5]
     [] Len(u) = 6 -> u[1]*v[1] + u[2]*v[2] + u[3]*v[3] + u[4]*v[4] + u[5]*v[5] + u[6]*v[6]
+    [] OTHER -> DotFrom(u, v, 1)
 
 Norm2(v) == Dot(v, v)
 
